@@ -198,7 +198,7 @@ struct Gen {
   void g_talloc() {
     size_t n = ch.chance(1, 2) ? ch.of(g_classes) : ch.range(1, 200*KiB); size_t k = ch.range(1, 40); if (k * n > 32*MiB) k = 1;
     if (next_slot + (int)k > NSLOTS || live_bytes + k * n > 512*MiB) return; int s0 = next_slot; next_slot += (int)k;
-    Op op("talloc"); op.u("s", (uint64_t)s0).u("k", k).u("n", n); if (ch.chance(1, 4)) op.s("f", "zalloc"); out.push_back(op);
+    Op op("talloc"); op.u("s", (uint64_t)s0).u("k", k).u("n", n); if (ch.chance(1, 4)) op.s("f", "zalloc"); if (subprocs && ch.chance(1, 2)) op.u("sp", ch.pick(2)); out.push_back(op);
     for (size_t i = 0; i < k; i++) note_alloc(s0 + (int)i, n, 1, 0, false, -1);
     groups.push_back({ s0, (int)k, n });
   }
@@ -224,7 +224,7 @@ struct Gen {
     H.alive = false; if (def == h) def = 1;
   }
   void g_collect() { if (ch.chance(1, 2)) out.push_back(Op("collect").u("force", ch.chance(1, 2))); else { std::vector<int> hs; for (int i = 1; i < NHEAPS; i++) if (heaps[i].alive) hs.push_back(i); out.push_back(Op("hcollect").u("h", (uint64_t)ch.of(hs)).u("force", ch.chance(1, 2))); } }
-  bool census_ok = false;
+  bool census_ok = false; bool subprocs = false;
   void g_visit() { if (census_ok && ch.chance(1, 3)) { out.push_back(Op("census")); return; } std::vector<int> hs; for (int i = 1; i < NHEAPS; i++) if (heaps[i].alive) hs.push_back(i); Op op("visit"); op.u("h", (uint64_t)ch.of(hs)); if (pf.stop_visits && ch.chance(1, 3)) op.u("stop", ch.range(1, 1 + 2 * live_list.size())); out.push_back(op); }
   void g_arena() { for (int i = 0; i < NARENAS; i++) if (!arena_valid[i]) { bool ex = ch.chance(1, 2); out.push_back(Op("arena").u("i", (uint64_t)i).u("size", (size_t)ch.range(2, 6) * 32*MiB).u("commit", ch.chance(1, 4)).u("excl", ex)); arena_valid[i] = true; arena_excl[i] = ex; return; } }
 
